@@ -4,6 +4,7 @@
 From Coq Require Import Permutation.
 From DV Require Import Base.Prelude Model.SetM Proofs.SetAlg Proofs.SetRdata Proofs.SetMachine
   Proofs.SetRds Proofs.SetRdsMachine Proofs.SetTtl Proofs.SetImm.
+From DV Require Model.NameM Model.SchemaM Model.DnssecM Model.SetCanonM Proofs.DnssecRef Proofs.SetCanon Proofs.SetCanonRfc.
 Open Scope Z_scope.
 
 (* ---------------- records: equality, hash, order ---------------- *)
@@ -45,6 +46,87 @@ Theorem rdata_rich_comparisons : forall w a b,
                       end).
 Proof. exact rd_rich_spec. Qed.
 Print Assumptions rdata_rich_comparisons.
+
+(* ---------------- records with their fields: ==, hash, order on the real encodings ---------------- *)
+(* Model/SetCanonM.v: field lists and values are C02's (SchemaM), the canonical-form reference is
+   C15's (DnssecRef.rfc4034_canonical_rdata); both imported read-only. *)
+Module Canon.
+Import NameM SchemaM SetCanonM SetCanon SetCanonRfc.
+
+(* the structured ==, _cmp and hash agree with the flat records the set theorems are about *)
+Theorem structured_eq_is_flat_eq : forall a b x y,
+  s_abs a = Ok x -> s_abs b = Ok y -> s_eq a b = Ok (rd_eqb x y).
+Proof. exact s_eq_abs. Qed.
+Print Assumptions structured_eq_is_flat_eq.
+
+Theorem structured_cmp_is_flat_cmp : forall a b x y,
+  s_abs a = Ok x -> s_abs b = Ok y -> s_cmp a b = Ok (rd_cmp x y).
+Proof. exact s_cmp_abs. Qed.
+Print Assumptions structured_cmp_is_flat_cmp.
+
+Theorem structured_hash_congr : forall a b x y,
+  s_abs a = Ok x -> s_abs b = Ok y -> s_eq a b = Ok true -> s_hashkey a = s_hashkey b.
+Proof. exact s_hash_congr. Qed.
+Print Assumptions structured_hash_congr.
+
+(* to_wire(canonicalize=True) is to_wire of the record with lower-cased names (types that pass
+   the flag on), and plainly C02's writer otherwise *)
+Theorem canonical_is_lowercased_encoding : forall o low, origin_lc o -> forall fs vs,
+  cenc_fields o low fs vs = enc_fields o fs (lowvals low vs).
+Proof. exact cenc_fields_low. Qed.
+Print Assumptions canonical_is_lowercased_encoding.
+
+(* two absolute records of one class and type are == iff their field values are equal: integers
+   and octet strings identical, embedded names label by label up to ASCII case when the type
+   passes canonicalize on (RFC 4034 6.2 types, see canonicalize_flags_are_rfc4034), identical
+   otherwise.  The `only if` direction is C02's round trip: the wire form determines the record. *)
+Theorem rdata_eq_iff_canonical : forall a b da db,
+  schema_wf (sfs a) = true ->
+  scls a = scls b -> styp a = styp b -> sfs b = sfs a -> slow b = slow a ->
+  valid_fields (sfs a) (svs a) = true -> valid_fields (sfs a) (svs b) = true ->
+  s_digest a None = Ok da -> s_digest b None = Ok db ->
+  (s_eq a b = Ok true <-> vals_ci (slow a) (svs a) (svs b)).
+Proof. exact s_eq_iff_fields. Qed.
+Print Assumptions rdata_eq_iff_canonical.
+
+(* to_digestable(origin) = RFC 4034 6.2 canonical RDATA (C15's reference), for every origin *)
+Theorem digest_is_rfc4034_canonical : forall r origin fl,
+  slow r = DnssecM.rfc_downcased (styp r) -> tf_fields (sfs r) (svs r) = Ok fl ->
+  s_digest r origin = DnssecRef.rfc4034_canonical_rdata (styp r) fl origin.
+Proof. exact s_digest_is_rfc4034. Qed.
+Print Assumptions digest_is_rfc4034_canonical.
+
+Theorem canonicalize_flags_are_rfc4034 :
+  forallb (fun ct => match schema_of (fst ct) (snd ct) with
+                     | Some (_, low) => Bool.eqb low (DnssecM.rfc_downcased (snd ct))
+                     | None => false
+                     end) table_types = true.
+Proof. exact table_flags_are_rfc4034. Qed.
+Print Assumptions canonicalize_flags_are_rfc4034.
+
+(* ==, order and hash as statements about canonical RDATA octets *)
+Theorem eq_order_hash_on_canonical_rdata : forall a b fa fb da db,
+  scls a = scls b -> styp a = styp b ->
+  slow a = DnssecM.rfc_downcased (styp a) -> slow b = DnssecM.rfc_downcased (styp b) ->
+  tf_fields (sfs a) (svs a) = Ok fa -> tf_fields (sfs b) (svs b) = Ok fb ->
+  DnssecRef.rfc4034_canonical_rdata (styp a) fa None = Ok da ->
+  DnssecRef.rfc4034_canonical_rdata (styp b) fb None = Ok db ->
+  s_eq a b = Ok (zlist_eqb da db) /\
+  s_cmp a b = Ok (match cmp_bytes da db with Eq => 0 | Gt => 1 | Lt => -1 end) /\
+  s_hashkey a = Ok da /\ s_hashkey b = Ok db.
+Proof. exact s_eq_is_canonical_equality. Qed.
+Print Assumptions eq_order_hash_on_canonical_rdata.
+
+(* non-vacuity: an MX record and a case variant *)
+Definition ex_mx1 := mkS 0 1 15 0 [FS (FU 2 65535); FS (FName true)] CkNone true [VS (VI 10); VS (VN [[77; 97]; []])].
+Definition ex_mx2 := mkS 1 1 15 0 [FS (FU 2 65535); FS (FName true)] CkNone true [VS (VI 10); VS (VN [[109; 65]; []])].
+Example ex_mx :
+  schema_wf (sfs ex_mx1) = true /\ valid_fields (sfs ex_mx1) (svs ex_mx1) = true /\
+  s_digest ex_mx1 None = Ok [0; 10; 2; 109; 97; 0] /\ s_digest ex_mx2 None = Ok [0; 10; 2; 109; 97; 0] /\
+  s_eq ex_mx1 ex_mx2 = Ok true /\ vals_ci true (svs ex_mx1) (svs ex_mx2) /\
+  tf_fields (sfs ex_mx1) (svs ex_mx1) = Ok [DnssecM.FRaw [0; 10]; DnssecM.FName [[77; 97]; []]].
+Proof. repeat split; repeat constructor. Qed.
+End Canon.
 
 (* ---------------- dns.set.Set: a set that remembers first-insertion order ---------------- *)
 
